@@ -619,6 +619,41 @@ def rule_g(idx: ProgramIndex, rep: Report):
 
 
 # ------------------------------------------------------------------------------------------------
+def rule_c(idx: ProgramIndex, rep: Report):
+    """Clone freshness through the ownership engine (E1): the operator returned by clone() holds no tensor object and
+    no storage of the receiver, for every definition of clone as resolved on every operator class."""
+    from ..own import Engine
+
+    rep.rule("C14.C", "clone() returns an operator that shares no tensor object or storage with the original", floor=1)
+    eng = Engine(idx)
+    eng.run()
+    seen = set()
+    for c in idx.operator_classes():
+        fn = idx.resolve_method(c, "clone")
+        if fn is None or fn.qualname in seen:
+            continue
+        seen.add(fn.qualname)
+        ret = eng.summary_of(fn).ret
+        shared = sorted({kind for (origin, kind) in (ret.prov | ret.oprov) if origin and origin[0] == "SELF"})
+        who = short_name(fn)
+        sample = {"clone": who, "result_type": ret.ty, "shares_with_self": shared}
+        if ret.ty not in ("op", "unknown"):
+            rep.bad("C14.C", Finding(PROP, "C14.C", who, "clone does not return an operator",
+                                     f"{who} returns a value of abstract type {ret.ty}", fn.loc()), sample)
+        elif shared:
+            what = "the very tensor objects" if "OBJ" in shared else "storage (views / detached aliases)"
+            rep.bad("C14.C", Finding(PROP, "C14.C", who, "clone result shares " + "/".join(shared) + " with self",
+                                     f"{who}: the operator it returns may hold {what} of the original: an in-place update of "
+                                     "the clone's (or the original's) tensors changes the other - the copy is not independent",
+                                     fn.loc()), sample)
+        else:
+            rep.ok("C14.C", sample)
+
+
+def short_name(fn: FunctionInfo) -> str:
+    return (fn.cls.name + "." if fn.cls else "") + fn.name
+
+
 def run(idx: ProgramIndex, rep: Report, tier: str, selftest: bool = True):
     rep.extra["explanation"] = (
         "Table-agreement and dataflow rules over the ast of every operator class. A: the chain of __init__ calls of "
@@ -643,6 +678,7 @@ def run(idx: ProgramIndex, rep: Report, tier: str, selftest: bool = True):
     rule_p2(idx, rep, records)
     rule_n(idx, rep)
     rule_g(idx, rep)
+    rule_c(idx, rep)
     if selftest:
         from ..selftest import run_fixtures
 
